@@ -12,11 +12,11 @@ def Pc.ticket : Pc → Option (Nat × Nat)
   | .idle | .skp | .resv _ => none
   | .pre r b | .wait r b | .chk r b | .setC r b => some (b, r.len)
   | .cs r b _ | .ins r b _ | .pub r b _ => some (b, r.len)
-  | .dead b n => some (b, n)
+  | .unw b n | .dead b n => some (b, n)
 
 /-- inside the critical section (between winning the ticket and publishing / giving up) -/
 def Pc.inCS : Pc → Bool
-  | .cs .. | .ins .. | .setC .. | .pub .. | .dead .. => true
+  | .cs .. | .ins .. | .setC .. | .pub .. | .unw .. | .dead .. => true
   | _ => false
 
 /-- executing the wrapped iterator's `next()` right now -/
